@@ -237,6 +237,10 @@ class DTCWTInverse(nn.Module):
                         low = low[:,:,1:-1]
                     if c != c1 * 2:
                         low = low[:,:,:,1:-1]
+            elif low is None or low.shape == torch.Size([]):
+                # Neither a lowpass nor bandpasses at this scale: the lowpass
+                # handed to the next scale is all zeros as well
+                continue
 
             low = INV_J2PLUS.apply(low, s, self.g0a, self.g1a, self.g0b,
                                    self.g1b, self.o_dim, self.ri_dim, mode)
